@@ -1,9 +1,10 @@
 import QipVerif.Lemmas.RenderInv
 /-! C20: equal widths after the final padding, and success of the drawing, for covered circuits. -/
 namespace QipVerif.Render
+variable {v : Variant}
 
 /-- the decidable hypothesis of `equal_width_partial` -/
-def circOk (sty : Style) (c : Circ) : Bool := styleOk sty c.N c.C && c.ops.all (opOk c.N)
+def circOk (v : Variant) (sty : Style) (c : Circ) : Bool := styleOk sty c.N c.C && c.ops.all (opOk v c.N)
 
 theorem styleOk_ext {sty : Style} {N C : Nat} (h : styleOk sty N C = true) : 0 ≤ sty.ext := by
   simp only [styleOk, Bool.and_eq_true, decide_eq_true_eq] at h
@@ -76,14 +77,14 @@ theorem labels_inv {sty : Style} {N C : Nat} {st0 : St} (hs : styleOk sty N C = 
     rw [(key i w hi).2, (key 0 w0 h0).2]
     exact Int.le_refl _
 
-theorem step_inv {sty : Style} {N C : Nat} {st st' : St} {op : Op} (hop : opOk N op = true)
-    (h : step sty N C st op = .ok st') (hinv : Inv N st ∧ st.length = N + C) :
+theorem step_inv {sty : Style} {N C : Nat} {st st' : St} {op : Op} (hop : opOk v N op = true)
+    (h : step v sty N C st op = .ok st') (hinv : Inv N st ∧ st.length = N + C) :
     Inv N st' ∧ st'.length = N + C := by
   obtain ⟨pl, hpl, _, _, hN, rfl⟩ := step_ok h
   exact ⟨place_inv hinv.1 (plan_ok hop hpl) hN hinv.2, by rw [place_length]; exact hinv.2⟩
 
-theorem steps_inv {sty : Style} {N C : Nat} {ops : List Op} {st st' : St} (hops : ∀ op ∈ ops, opOk N op = true)
-    (h : steps sty N C st ops = .ok st') (hinv : Inv N st ∧ st.length = N + C) :
+theorem steps_inv {sty : Style} {N C : Nat} {ops : List Op} {st st' : St} (hops : ∀ op ∈ ops, opOk v N op = true)
+    (h : steps v sty N C st ops = .ok st') (hinv : Inv N st ∧ st.length = N + C) :
     Inv N st' ∧ st'.length = N + C := by
   induction ops generalizing st with
   | nil => cases h; exact hinv
@@ -129,28 +130,36 @@ theorem mem_printRows {N C : Nat} {st : St} {r : Str} (h : r ∈ printRows N C s
     simpa using hr
   · cases hr
 
+theorem planGate_succeeds {p N : Nat} {name : Str} {argLabel : Option Str} {targets : List Nat}
+    {controls : Option (List Nat)} (hop : gateOk v N name targets controls = true) :
+    ∃ pl, planGate v p name argLabel targets controls = .ok pl := by
+  simp only [gateOk, Bool.and_eq_true] at hop
+  have hne : targets.isEmpty = false := by simpa using hop.1.1
+  simp only [planGate]
+  split
+  · exact ⟨_, rfl⟩
+  · split
+    · rw [hne]; exact ⟨_, rfl⟩
+    · rw [hne]
+      simp only [Bool.false_eq_true, if_false]
+      split <;> exact ⟨_, rfl⟩
+
 /-- a covered element never fails -/
-theorem plan_succeeds {p N C : Nat} {op : Op} (hop : opOk N op = true) : ∃ pl, plan p N C op = .ok pl := by
+theorem plan_succeeds {p N C : Nat} {op : Op} (hop : opOk v N op = true) : ∃ pl, plan v p N C op = .ok pl := by
   cases op with
   | meas targets store =>
     match targets, hop with
     | [], hop => simp [opOk] at hop
     | _ :: _ :: _, hop => simp [opOk] at hop
     | [t0], _ => exact ⟨_, rfl⟩
-  | gate name argLabel targets controls =>
+  | gate name argLabel targets controls => exact planGate_succeeds hop
+  | glob name argLabel =>
     simp only [opOk, Bool.and_eq_true] at hop
-    have hne : targets.isEmpty = false := by simpa using hop.1.1
-    simp only [plan]
-    split
-    · exact ⟨_, rfl⟩
-    · split
-      · rw [hne]; exact ⟨_, rfl⟩
-      · rw [hne]
-        simp only [Bool.false_eq_true, if_false]
-        split <;> exact ⟨_, rfl⟩
+    simp only [plan, hop.1, if_true]
+    exact planGate_succeeds hop.2
 
-theorem step_succeeds {sty : Style} {N C : Nat} {st : St} {op : Op} (hop : opOk N op = true) (hN : 1 ≤ N) :
-    ∃ st', step sty N C st op = .ok st' := by
+theorem step_succeeds {sty : Style} {N C : Nat} {st : St} {op : Op} (hop : opOk v N op = true) (hN : 1 ≤ N) :
+    ∃ st', step v sty N C st op = .ok st' := by
   obtain ⟨pl, hpl⟩ := plan_succeeds (p := sty.pad) (C := C) hop
   have hok := plan_ok hop hpl
   unfold step
@@ -164,7 +173,7 @@ theorem step_succeeds {sty : Style} {N C : Nat} {st : St} {op : Op} (hop : opOk 
   exact ⟨_, rfl⟩
 
 theorem steps_succeeds {sty : Style} {N C : Nat} {ops : List Op} (st : St)
-    (hops : ∀ op ∈ ops, opOk N op = true) (hN : 1 ≤ N) : ∃ st', steps sty N C st ops = .ok st' := by
+    (hops : ∀ op ∈ ops, opOk v N op = true) (hN : 1 ≤ N) : ∃ st', steps v sty N C st ops = .ok st' := by
   induction ops generalizing st with
   | nil => exact ⟨st, rfl⟩
   | cons op ops ih =>
